@@ -44,11 +44,22 @@ static void c02_run(vf_case *c)
     if (g.pattern == PAT_STAIR && rng_bool(r, 0.5)) g.pattern = PAT_BAND;
     int tall = route == 0 && rng_bool(r, 0.3);
     if (tall) g.m = g.n + rng_int(r, 1, 1 + g.n / 2);
+    int straddle = !tall && !big && rng_bool(r, 0.08);     /* constructed: long supernodes cut by panel boundaries, U-segments that start inside them */
+    if (straddle) { g.pattern = PAT_LOWERDENSE; g.n = g.m = rng_int(r, 20, 44); if (g.values == VAL_SMALLINT || g.values == VAL_POW2) g.values = VAL_UNIF; }
     vf_mat A; gen_matrix(r, P, &g, &A);
+    if (straddle) {   /* rebuild the upper part: at most one entry per column, 3..7 rows above the diagonal */
+        vf_mat B; B.m = B.n = A.n; int nn = A.n; B.colptr = malloc(sizeof(int_t) * (size_t)(nn + 1)); B.rowind = malloc(sizeof(int_t) * ((size_t)nn * nn + 1)); B.v = malloc(sizeof(ldc) * ((size_t)nn * nn + 1)); int_t q = 0;
+        for (int j = 0; j < nn; j++) { B.colptr[j] = q; int up = (j >= 8 && rng_bool(r, 0.5)) ? j - rng_int(r, 3, 7) : -1;
+            if (up >= 0) { B.rowind[q] = up; B.v[q++] = P->round((2 * rng_unif(r) - 1) + (P->cplx ? (2 * rng_unif(r) - 1) * I : 0)); }
+            for (int i = j; i < nn; i++) { B.rowind[q] = i; ld re = 2 * rng_unif(r) - 1; if (i == j) re = re < 0 ? re - 2 : re + 2; B.v[q++] = P->round(re + (P->cplx ? (2 * rng_unif(r) - 1) * I : 0)); } }
+        B.colptr[nn] = q; B.nnz = q; mat_free(&A); A = B; }
     gen_run_opts(r, &o, route == 1);
     if (tall && o.opt.ColPerm == MMD_AT_PLUS_A) o.opt.ColPerm = MMD_ATA;   /* A'+A needs a square matrix (documented) */
     if (big) o.tuning_small = 0;
     gen_tuning(r, o.tuning_small);
+    /* long supernodes that straddle wide panels, natural order: the blocked within-panel update paths with partial segments */
+    if (g.pattern == PAT_LOWERDENSE && rng_bool(r, 0.6)) { o.opt.ColPerm = NATURAL; o.my_permc = 0; o.opt.SymmetricMode = NO; vf_ienv_set(1, rng_int(r, 6, 8)); vf_ienv_set(3, rng_int(r, 5, 10)); vf_ienv_set(2, rng_int(r, 1, 2)); }
+    if (straddle) { o.opt.ColPerm = NATURAL; o.opt.SymmetricMode = NO; o.rowmajor = 0; vf_ienv_set(1, rng_int(r, 6, 8)); vf_ienv_set(3, rng_int(r, 5, 9)); vf_ienv_set(7, 10); vf_ienv_set(2, 1); vf_tag(c, "constructed=straddle"); }
     o.my_permc = o.opt.ColPerm == MY_PERMC;
     gen_spec_str(&g, buf, sizeof buf); vf_desc(c, "route=%s %s; ", route ? "gssv" : "gstrf", buf);
     run_opts_str(&o, buf, sizeof buf); vf_desc(c, "%s; ", buf); tuning_str(buf, sizeof buf); vf_desc(c, "%s", buf);
